@@ -581,7 +581,16 @@ def purity_battery(case, r, ctx, obs, active):
         sets = [list(active)]
         for cand in (names, []):
             if names and cand not in sets:
-                sets.append(cand)
+                # only active sets under which the reference run stays small (no fixpoint / growth otherwise)
+                prog2 = map_nodes(case["prog"], lambda nd: [dict(nd, active=(nd["name"] in cand),
+                                                                 ops=nd["ops"])] if nd["k"] == "ext" and
+                                  nd["active"] != (nd["name"] in cand) else None)
+                try:
+                    for s in inputs:
+                        ref_run(dict(case, prog=prog2), prog2, s, [])
+                    sets.append(cand)
+                except Diverges:
+                    pass
         first = {}
         for act in sets + [sets[0]] + (sets[1:2] if len(sets) > 1 else []):
             for s in inputs:
@@ -595,12 +604,14 @@ def purity_battery(case, r, ctx, obs, active):
         for s in inputs:
             if first[(s, tuple(sets[0]))] != base[s]:
                 fail("purity: apply on the reused REPP object differs from the trace made before", (s, base[s]))
+        f0 = None
         for act in sets:
             f = fresh()
+            f0 = f0 or f
             for s in inputs:
                 if res(f, s, act) != first[(s, tuple(act))]:
                     fail("purity: the reused REPP object differs from a freshly constructed one", (s, act))
-        if names:
+        if names and names in sets and [] in sets:
             for n in names:
                 r.activate(n)
             for s in inputs:
@@ -634,7 +645,7 @@ def purity_battery(case, r, ctx, obs, active):
                 lat2 = r.tokenize_result(r.apply(s, active=active), pattern=eff)
                 if [(t.lnk.data[0], t.lnk.data[1], t.form) for t in lat2.tokens] != got:
                     fail("purity: tokenize_result(apply(s), pattern) differs from tokenize(s, pattern)", (s, p))
-        f = fresh()
+        f = f0
         for p in reversed(BATTERY_PATS):
             for s in inputs:
                 if toks(f, s, p) != tfirst[(s, p)]:
@@ -642,7 +653,7 @@ def purity_battery(case, r, ctx, obs, active):
     try:
         with warnings.catch_warnings():
             warnings.simplefilter("ignore")
-            with_timeout(6.0, go)
+            with_timeout(2.0, go)
     except Timeout:
         pass
     return fails
@@ -1152,7 +1163,20 @@ def pin_consts(fn):
     None, docstrings, log formats and exception message texts are dropped; tuples are written as '(a,b)'"""
     import types
     fn = getattr(fn, "__func__", fn)
+    marks = []
+    while not hasattr(fn, "__code__") and hasattr(fn, "__wrapped__"):
+        marks.append("@" + type(fn).__name__)        # a decorator was put around the function: shows in the pin
+        fn = fn.__wrapped__
     doc = fn.__doc__
+    if marks:
+        code0 = fn.__code__
+        fn = type("F", (), {"__code__": code0, "__doc__": doc})
+        return marks + pin_consts_code(code0, doc)
+    return pin_consts_code(fn.__code__, doc)
+
+
+def pin_consts_code(code0, doc):
+    import types
 
     def walk(code):
         out = []
@@ -1170,7 +1194,7 @@ def pin_consts(fn):
             else:
                 out.append(str(c))
         return out
-    return walk(fn.__code__)
+    return walk(code0)
 
 
 def pin_defaults(fn):
@@ -1242,7 +1266,7 @@ def c14_tables():
 class C13(Check):
     pid = "C13"
     driver = "Verif/C13/Driver.lean"
-    quick_cases = 2200
+    quick_cases = 2000
     thorough_cases = 20000
     rule = ("REPP programs from a regex grammar (literals, classes, ? * + {m,n}, anchors, alternation, lookahead, 0-4 "
             "capture groups incl. optional, nested, empty and named) with templates mixing literals, \\N, \\g<N>, "
@@ -1275,6 +1299,9 @@ class C13(Check):
         "rendered text (files, preloaded modules) and on raw / damaged line lists; the link from the loaded module "
         "to the executable operation tree of the semantics model (template parsing, call expansion) is made by the "
         "harness and checked by the oracle (loaded tree == program tree)",
+        "reuse / purity (same REPP object used again with other active sets and tokenization patterns, same files "
+        "loaded again, lattices written and read again) is decided by the direct oracle only: the models are pure "
+        "functions, for which these clauses hold by construction",
         "template validation by re (bad escapes) is not modelled; only 'group reference beyond the pattern's groups' "
         "is (re.error at load)",
     ]
